@@ -17,7 +17,7 @@ from mc.common import FAMILIES, grid_rects, xinter, center_shape, reset_frame_st
 ID = 'C06'
 LEVEL = 'exploration'
 RULE = ("all ordered lists with repetition, length 1..3 (quick) / 1..4 (thorough), of the 36 rectangles of a 4x4-point "
-        "grid (families HALF, DEC1, DEC3) and length 1..2 (+ length 3 on the 1/1.001 sub-alphabet) of the 100 rectangles of the near-miss grid "
+        "grid (families HALF, DEC1, DEC3, and HALF / DEC1 translated by 20000 / 1000: coordinates 1e4 times the sizes) and length 1..2 (+ length 3 on the 1/1.001 sub-alphabet) of the 100 rectangles of the near-miss grid "
         "{0,1,1.001,2,3}; non-trivial = lists of >=2 rectangles in which at least one rectangle has all the others touching it "
         "(a trunk candidate: orthogons and near misses), distinct by construction")
 ASSUMPTIONS = ["distance tolerance as a netlist load sets it (1e-12 * smallest side); near misses are 1e-3, far above it",
@@ -27,7 +27,11 @@ BOUNDS = {'quick': 'length<=3 on 36 rectangles x 3 families (47 988 lists each) 
 
 NEAR = [F(0), F(1), F(1001, 1000), F(2), F(3)]
 FAMS = dict(HALF=FAMILIES['HALF'], DEC1=FAMILIES['DEC1'], DEC3=FAMILIES['DEC3'], NEAR=lambda i: NEAR[i])
-NPTS = dict(HALF=3, DEC1=3, DEC3=3, NEAR=4)    # cells per axis
+# the same alphabets far from the origin: the coordinates are 1e4 times larger than the rectangles, so that the tolerance
+# derived from the smallest side (1e-12 * side) is below one ulp of the coordinates
+FAMS.update(HALF_FAR=lambda i: FAMILIES['HALF'](i) + 20000, DEC1_FAR=lambda i: FAMILIES['DEC1'](i) + 1000,
+            NEAR_FAR=lambda i: NEAR[i] + 20000)
+NPTS = dict(HALF=3, DEC1=3, DEC3=3, NEAR=4, HALF_FAR=3, DEC1_FAR=3, NEAR_FAR=4)    # cells per axis
 
 
 def exact_rect(fam, r):
@@ -179,7 +183,7 @@ def check_via_netlist(case, res, fam, lst):
                           f'{type(e).__name__}: {e}')
             return
         moved_last = (lst[-1][0] + 1, lst[-1][1], lst[-1][2] + 1, lst[-1][3])
-        ex3 = ex[:-1] + [exact_rect(fam, moved_last) if fam != 'NEAR' else None]
+        ex3 = ex[:-1] + [exact_rect(fam, moved_last) if not fam.startswith('NEAR') else None]
         if ex3[-1] is not None:
             vecs3 = vecs[:-1] + [[target.center.x, target.center.y, target.shape.w, target.shape.h]]
             _judge_module(case, res, fam, lst, m3, ex3, vecs3, 'netlist+move')
@@ -234,6 +238,12 @@ def shards(tier):
     # near-miss family
     for first in range(100):
         out.append(dict(fam='NEAR', L=3, first=first, sub=(tier == 'quick'), netlist=False))
+    # far from the origin
+    for first in range(36):
+        out.append(dict(fam='HALF_FAR', L=3, first=first, netlist=(tier != 'quick')))
+        out.append(dict(fam='DEC1_FAR', L=2 if tier == 'quick' else 3, first=first, netlist=True))
+    for first in range(100):
+        out.append(dict(fam='NEAR_FAR', L=2 if tier == 'quick' else 3, first=first, sub=True, netlist=False))
     return out
 
 
